@@ -192,8 +192,19 @@ def tlc(module, cfg, workers=None, simulate=None, depth=None, seed=None, env=Non
                              errors="replace")
         lines = []
         deadline = t0 + timeout
+        pending = None
         for line in p.stdout:
             line = line.rstrip("\n")
+            # TLC wraps long tuples over several lines:  << "CASE",\n   "...." >>
+            if pending is not None:
+                pending += " " + line.strip()
+                if not line.rstrip().endswith(">>"):
+                    continue
+                line = re.sub(r'^<< "(\w+)", +"(.*)" >>$', r'<<"\1", "\2">>', pending)
+                pending = None
+            elif re.match(r'^<< "(CASE|VERDICT)",$', line):
+                pending = line
+                continue
             m = _CASE_RE.match(line)
             if m:
                 try:
